@@ -3,3 +3,7 @@ open Model.C10
 #print axioms fetch_limited_superset
 #print axioms fetch_limited_all_when_small
 #print axioms load_limited_exact
+#print axioms load_entries_limited_exact
+#print axioms Model.lastNKeeping_cut_eq
+#print axioms Model.mem_lastNKeeping
+#print axioms Model.lastNKeeping_length
